@@ -468,6 +468,10 @@ func (r *runner) doApply(i int, o OpSpec) string {
 		if sig, what := r.alias.publish(aff); sig != "" {
 			r.violate(i, sig, what)
 		}
+		// … and which object its NewClasses map is (ClassAlias.lean): the caller's, the replaced entry's, a new one
+		origin := r.alias.classOrigin(aff, classes)
+		impl += " cm=" + origin
+		r.hit("apply-classmap-" + origin)
 	}
 	r.ask(i, "apply", o.applyLine(), impl)
 	return kind
@@ -522,6 +526,16 @@ func (r *runner) step(i int, o OpSpec) string {
 				if w := r.alias.stateDiffShares(ps.StateDiff()); w != "" {
 					r.violate(i, "state-diff-shares-a-map-with-a-published-entry", fmt.Sprintf("%s(%d): %s", o.Op, o.Block, w))
 				}
+				tok, owner := r.alias.stateClassOrigin(ps)
+				switch tok {
+				case "published":
+					r.violate(i, "state-class-table-is-a-published-map", fmt.Sprintf("%s(%d): the class table of the state built over the view "+
+						"is the same Go map object as %s: the readers' loop copies the next block's classes INTO it", o.Op, o.Block, owner))
+				case "no-field":
+					r.fatal = append(r.fatal, "pending.State has no map field newClasses (reflection)")
+				}
+				out += " cm=" + tok
+				r.hit("state-classmap-" + tok)
 			}
 			if e == nil && o.Op == "state" {
 				out += " " + readsLU(sr)
